@@ -511,7 +511,7 @@ func runC04(p *core.Program, r *core.Report) {
 // obligation; there is no idiom that makes one safe in general, so each site is
 // either a finding or needs a reviewed reason (none today).
 var methodSetQueries = map[string]bool{
-	"(*go/types.Named).NumMethods": true, "(*go/types.Named).Method": true,
+	"(*go/types.Named).NumMethods": true, "(*go/types.Named).Method": true, "(*go/types.Named).Methods": true,
 	"go/types.NewMethodSet": true, "go/types.LookupFieldOrMethod": true, "go/types.MissingMethod": true,
 	"go/types.Implements": true, "go/types.Satisfies": true,
 	"(*go/types.Interface).NumMethods": false, // methods of an interface type are declared, not generated
